@@ -255,6 +255,8 @@ class NativeContract(object):
         for case in self.c.cases:
             pools = []
             bargs = self.c.decl.get('bounded_args') or {}
+            if case.get('_where') and case.get('_k') not in (None, 1, 0):
+                continue          # work-splitting cases share one domain: sample it once
             for n in self.names:
                 if n in case and n not in bargs:
                     pools.append(api.samples_of(case[n], rng) if isinstance(case[n], api.Dom) else [case[n]])
